@@ -635,7 +635,11 @@ def assign_persist(cases, tag, fmt):
             continue
         d = root / str(i)
         d.mkdir(parents=True, exist_ok=True)
-        c["cfg"]["persist"] = str(d / f"p.{f}")
+        if i % 7 == 3:        # a bare relative file name (like the default "mysensors.pickle"), used from its directory
+            c["cfg"]["persist"] = f"p.{f}"
+            c["cfg"]["persist_cwd"] = str(d)
+        else:
+            c["cfg"]["persist"] = str(d / f"p.{f}")
     return root
 
 
@@ -646,7 +650,10 @@ def relocated(case, tag):
     c = dict(case, cfg=dict(case["cfg"]))
     if c["cfg"].get("persist"):
         root.mkdir(parents=True, exist_ok=True)
-        c["cfg"]["persist"] = str(root / os.path.basename(c["cfg"]["persist"]))
+        if c["cfg"].get("persist_cwd"):
+            c["cfg"]["persist_cwd"] = str(root)
+        else:
+            c["cfg"]["persist"] = str(root / os.path.basename(c["cfg"]["persist"]))
     return c, root
 
 
